@@ -272,6 +272,17 @@ add("wrap_deflate::w_compress_tail_zlib", ["C12", "C02"],
     functions=["deflate::core::compress", "compress_inner", "flush_output_buffer"], stubs=MARKERS + ["fill -> fill_model"],
     assumes=["<[T]>::fill on the 32 K-element arrays = whole-array assignment (model stub)"])
 
+add("capi::w_tinfl_decompress", ["C17"],
+    "real extern \"C\" tinfl_decompress: the output window is rebuilt as (start, next - start + remaining) with out_pos = next - start, the input as (in_buf, *in_buf_size); the core sees exactly "
+    "those ranges and the flags unchanged; status, consumed and produced counts are written back unchanged; every access stays inside the caller's objects (CBMC pointer checks)",
+    "input 0..=3 bytes, window position 0..=6 and remaining room 0..=6-pos (symbolic), all flag words, core = any result within D1", kind="W", timeout=600,
+    functions=["tinfl_decompress"], stubs=["decompress -> decompress_recording"], stubs_change_behaviour=True,
+    assumes=["core decompress stays within the slices it is given (D1/D5)"])
+add("capi::w_mz_checksum_wrappers", ["C16", "C17"],
+    "mz_adler32 / mz_crc32: null pointer => initial value whatever the length; otherwise the Rust function on exactly (ptr, len) from the low 32 bits of the running value; result fits 32 bits",
+    "running value arbitrary u64 (valid Adler halves), 2 symbolic bytes, zero-length case", kind="W", timeout=600,
+    functions=["mz_adler32", "mz_crc32", "mz_adler32_oxide"])
+
 
 def all_harnesses():
     gen = os.path.join(VERIF, "kani", "src", "gen", "registry.json")
